@@ -26,6 +26,8 @@ type Step struct {
 	// before the call, > 0 cancelled that many microseconds after the call
 	// started.
 	CancelUs int `json:"cancel_us,omitempty"`
+	// N of a notify step: number of back-to-back NotifyOfChange calls (0: one).
+	N int `json:"n,omitempty"`
 	// SleepUs of a sleep step.
 	SleepUs int `json:"sleep_us,omitempty"`
 }
